@@ -224,7 +224,7 @@ func condNonNil(conds []Cond, v ssa.Value) bool {
 			return ok && c.Value == nil
 		}
 		if (b.X == v && isNil(b.Y)) || (b.Y == v && isNil(b.X)) {
-			if (b.Op == token.NEQ && cd.Sense) || (b.Op == token.EQL && !cd.Sense) {
+			if (b.Op == token.NEQ && cd.Sense) || (neHolds(b, cd)) {
 				return true
 			}
 		}
@@ -243,7 +243,8 @@ func isNewHelper(fn *ssa.Function) bool {
 	if !ok {
 		return false
 	}
-	return !baselineFuncs[declKey(fn.Pkg.Pkg.Path(), fd)]
+	k := declKey(fn.Pkg.Pkg.Path(), fd)
+	return !baselineFuncs[k] && renamedTo[k] == ""
 }
 
 // reachesThroughNewHelpers: fn calls callee itself, or calls (to depth 3) a new helper that does.
